@@ -84,6 +84,12 @@ pub fn fast_check(pkgs: &[FcPackage], cache: Option<&RecordingFcCache>, ch: &Ch)
 
 /// `n_root_pkgs`: how many leading packages the root program imports directly.
 pub fn fast_check_rooted(pkgs: &[FcPackage], n_root_pkgs: usize, cache: Option<&RecordingFcCache>, ch: &Ch) -> Option<FcResult> {
+  let idx: Vec<usize> = (0..n_root_pkgs.min(pkgs.len())).collect();
+  fast_check_roots(pkgs, &idx, cache, ch)
+}
+
+/// `root_pkgs`: indices of the packages the root program imports directly, in that order.
+pub fn fast_check_roots(pkgs: &[FcPackage], root_pkgs: &[usize], cache: Option<&RecordingFcCache>, ch: &Ch) -> Option<FcResult> {
   let sched = Sched::new(SchedMode::Immediate);
   let loader = ScriptedLoader::new(sched);
   let mut root = String::new();
@@ -103,7 +109,7 @@ pub fn fast_check_rooted(pkgs: &[FcPackage], n_root_pkgs: usize, cache: Option<&
       exports: p.exports.iter().cloned().collect(),
     });
   }
-  for p in pkgs.iter().take(n_root_pkgs).filter(|p| !p.workspace) {
+  for p in root_pkgs.iter().map(|i| &pkgs[*i]).filter(|p| !p.workspace) {
     for (name, _) in &p.exports {
       let sub = if name == "." { "".to_string() } else { format!("/{}", name.trim_start_matches("./")) };
       root.push_str(&format!("import \"jsr:{}@{}{sub}\";\n", p.name, p.version));
